@@ -171,3 +171,25 @@ var Rejections = []string{
 	"a = 2*1\nb = a + 1\nreturn (b << 2) + (a + [2])", "return (1 + 1) + (1 + 1)", "return 1 + (1 + 1)", "return 1 + 1 + 1", "return ((1 << 1) << 2) + 2*(2*1)",
 	"_10 = 2*1\n_11 = 1 + _10\n_1100 = _11 << 2\nreturn _1100 + _11",
 }
+
+// NestedTrees returns trees whose printed form nests parentheses about k deep:
+// right-nested additions, shift of shift, double of double, and a mix.
+func NestedTrees(k int) []ast.Expr {
+	var radd, sh, db, mix ast.Expr = ast.Add{X: ast.Operand(0), Y: ast.Operand(0)}, ast.Operand(0), ast.Operand(0), ast.Identifier("x")
+	for i := 0; i < k; i++ {
+		radd = ast.Add{X: ast.Operand(0), Y: radd}
+		sh = ast.Shift{X: sh, S: 1}
+		db = ast.Double{X: db}
+		if i%2 == 0 {
+			switch (i / 2) % 3 {
+			case 0:
+				mix = ast.Shift{X: ast.Add{X: mix, Y: ast.Operand(0)}, S: 2}
+			case 1:
+				mix = ast.Double{X: mix}
+			default:
+				mix = ast.Add{X: ast.Operand(0), Y: ast.Add{X: ast.Operand(0), Y: mix}}
+			}
+		}
+	}
+	return []ast.Expr{radd, sh, db, mix}
+}
